@@ -13,5 +13,5 @@ rc=$?
 tail -4 $S.log
 RP=$(grep -o 'replay=[^ ]*' $S.log | head -1 | cut -d= -f2)
 { echo "check=$PID tier=$TIER exit=$rc"; grep -E '^(VIOLATION|KNOWN-FINDING)' $S.log; [ -n "$RP" ] && [ -f "$RP" ] && { echo "--- replay ---"; head -c 1500 "$RP"; }; } > /verif/seeded/$SEED/result_$PID.txt
-rm -rf $S $S.log /verif/replays/${PID}_$SEED /verif/work/${PID}_$SEED /verif/work/coq_$SEED /verif/work/.build.lock.$SEED
+rm -rf $S $S.log /verif/replays/${PID}_$SEED /verif/replays/${PID}_${PID}_$SEED /verif/work/${PID}_$SEED /verif/work/coq_$SEED /verif/work/.build.lock.$SEED
 exit $rc
